@@ -5,18 +5,18 @@ CONSTANTS
   JoinSet = {1, 2, 3, 4}
   RemainSet = {}
   LeaveSet = {}
-  Leader = 2
+  Leader = 1
   Thr = 3
   Period = 3
   Genesis = 100
   TMin = 110
   TMax = 110
-  LateSet = {}
+  LateSet = {2}
   RankChoices <- RotRank
   PermuteLists = FALSE
-  AtomicGossip = FALSE
+  AtomicGossip = TRUE
   AtomicExec = FALSE
-  MaxDrop = 0
+  MaxDrop = 1
 INVARIANTS TypeOK Inv_SameTerms Inv_OrderIndependent Inv_OwnIndex Inv_SameQual Inv_NoLoss Inv_EchoHeals Inv_SameGroupButTransition Inv_SameGroup
 VIEW View
 CHECK_DEADLOCK FALSE
